@@ -325,6 +325,14 @@ func runBuildCase(bc *BuildCase, tr *Tr) error {
 				return err
 			}
 			ev["refShape"] = shapeOf(fw2)
+			if n, ok := ev["n"].(int); ok && n <= 200 {
+				st3 := NewStore()
+				if troot, _, err := buildBoxoFile(st3, content, bc.Chunker, bc.W, "trickle", true, 1); err == nil {
+					if fw3, err := walkFile(st3, troot); err == nil {
+						ev["trickleShape"] = shapeOf(fw3)
+					}
+				}
+			}
 			ev["refEq"] = root.Defined() && rroot.Equals(root) && rsize == uint64(num64(ev["ret"].(M)["size"]))
 		}
 	}
